@@ -352,7 +352,14 @@ STR_CASES = [
     ('Literal["a"] | "b"', 'Literal["a"] | b'),
     ('tuple["a", ...]', "tuple[a, ...]"),
 ]
-STR_HEAD = "import typing, typing_extensions\nfrom typing import Literal, Optional, Annotated\n"
+STR_HEAD = ("import typing, typing_extensions\nimport typing as t\nimport typing_extensions as te\nfrom typing import Literal, Optional, Annotated\n"
+            "from typing import Literal as L\nfrom typing_extensions import Literal as TL\n")
+# Literal under every way of binding it x the places a string can stand relative to it
+LIT_SPELLINGS = ["Literal", "typing.Literal", "t.Literal", "L", "typing_extensions.Literal", "te.Literal", "TL"]
+LIT_CONTEXTS = [('{L}["a"]', '{L}["a"]'), ('{L}["a", "b"]', '{L}["a", "b"]'), ('list[{L}["a"]]', 'list[{L}["a"]]'), ('dict[{L}["k"], "v"]', 'dict[{L}["k"], v]'),
+                ('{L}["a"] | "b"', '{L}["a"] | b'), ('Optional[{L}["a"]]', 'Optional[{L}["a"]]'), ('list["a"] | {L}["b"]', 'list[a] | {L}["b"]'),
+                ('{L}[{L}["a"], "b"]', '{L}[{L}["a"], "b"]'), ('"{L}[\'a\']"', "{L}['a']")]
+STR_CASES = STR_CASES + [(a.replace("{L}", sp), b.replace("{L}", sp)) for sp in LIT_SPELLINGS for a, b in LIT_CONTEXTS]
 
 
 def _run_strings(griffe, acc):
@@ -375,7 +382,7 @@ def _run_strings(griffe, acc):
                 ok = stored is not None and _same(ast.parse(str(stored), mode="eval").body, ast.parse(exp, mode="eval").body)
                 acc.case(case, outcome=("parsed" if expect_parsed else "verbatim") + (":ok" if ok else ":bad"), nontrivial=True)
                 if not ok:
-                    lit = "literal" if "Literal" in src_ann else "plain"
+                    lit = "literal" if any(sp + "[" in src_ann for sp in LIT_SPELLINGS) else "plain"
                     acc.violation(f"strings/{slot}/{'future' if future else 'nofuture'}/{lit}", f"{src_ann} in {slot} ({'with' if future else 'without'} postponed evaluation) is stored as {str(stored)!r}, expected {exp!r}", case)
 
 
